@@ -16,7 +16,7 @@ from vf.hw import res
 from migen import *
 from migen.fhdl.structure import _Assign, _Operator, _Fragment as _FragmentT
 from migen.fhdl.specials import Memory, WRITE_FIRST, READ_FIRST, NO_CHANGE
-from migen.fhdl.tools import list_clock_domains
+from migen.fhdl.tools import list_clock_domains, list_signals
 from litex.gen.sim.core import Evaluator
 from litex.gen.fhdl.expression import _generate_expression
 from litex.gen.fhdl.namer import build_signal_namespace
@@ -133,6 +133,140 @@ def _walk_assigns(stmts, acc):
             for v in s.cases.values(): _walk_assigns(v, acc)
         elif isinstance(s, (list, tuple)): _walk_assigns(s, acc)
 
+# ---------------------------------------------------------------------------------------------------------------------------
+# Instance specials (litex/gen/fhdl/instance.py): contract of _instance_generate_verilog, checked on the text of the real convert()
+_VKW = {"module", "endmodule", "wire", "reg", "assign", "always", "initial", "input", "output", "inout", "begin", "end", "if", "else", "case", "endcase", "default", "posedge", "negedge"}
+def _balanced(src, i):
+    """src[i] == '(' -> index just after the matching ')' (strings respected)"""
+    assert src[i] == "(", src[i:i + 20]
+    depth = 0; j = i; instr = False
+    while j < len(src):
+        ch = src[j]
+        if instr: instr = ch != '"'
+        elif ch == '"': instr = True
+        elif ch == "(": depth += 1
+        elif ch == ")":
+            depth -= 1
+            if depth == 0: return j + 1
+        j += 1
+    raise VParseError("unbalanced parenthesis in an instance")
+def _split_top(txt):
+    items = []; depth = 0; cur = ""; instr = False
+    for ch in txt:
+        if instr:
+            cur += ch; instr = ch != '"'; continue
+        if ch == '"': instr = True
+        if ch in "({[": depth += 1
+        if ch in ")}]": depth -= 1
+        if ch == "," and depth == 0: items.append(cur); cur = ""
+        else: cur += ch
+    if cur.strip(): items.append(cur)
+    return [x.strip() for x in items]
+def _conn(txt):
+    out = []
+    for it in _split_top(txt):
+        m = re.match(r"^\.\s*([A-Za-z_][A-Za-z0-9_$]*)\s*\((.*)\)$", it, re.S)
+        if not m: raise VParseError(f"instance connection not of the form .name(value): {it[:40]}")
+        out.append((m.group(1), m.group(2).strip()))
+    return out
+def split_instances(main_source):
+    """-> (module text without instantiations, [dict(of, name, params=[(name, text)], ports=[(name, text)])]) ; statement-level
+    `<of> [#( .P(v), ... )] <name> ( .port(expr), ... );` of the emitted subset"""
+    from vf.vlog import strip_comments
+    src = strip_comments(main_source); insts = []; rest = ""; pos = 0
+    for m in re.finditer(r"(?m)^([A-Za-z_][A-Za-z0-9_$]*)[ \t]+(?=#\(|[A-Za-z_][A-Za-z0-9_$]*[ \t]*\()", src):
+        if m.start() < pos or m.group(1) in _VKW: continue
+        i = m.end(); params = []
+        if src[i] == "#":
+            j = _balanced(src, i + 1); params = _conn(src[i + 2:j - 1]); i = j
+        m2 = re.compile(r"\s*([A-Za-z_][A-Za-z0-9_$]*)\s*").match(src, i)
+        if not m2 or src[m2.end()] != "(": continue
+        j = _balanced(src, m2.end()); ports = _conn(src[m2.end() + 1:j - 1])
+        m3 = re.compile(r"\s*;").match(src, j)
+        if not m3: raise VParseError("instantiation not terminated by ';'")
+        insts.append(dict(of=m.group(1), name=m2.group(1), params=params, ports=ports))
+        rest += src[pos:m.start()]; pos = m3.end()
+    return rest + src[pos:], insts
+
+def _param_ok(value, text):
+    """specification of a parameter value's rendering: Constant -> a literal of that numeric value; float -> decimal text of that
+    float; str -> the same characters in double quotes; PreformattedParam -> verbatim"""
+    from migen.fhdl.structure import Constant
+    if isinstance(value, Instance.PreformattedParam): return text == str(value)
+    if isinstance(value, Constant):
+        if re.match(r"^-?\d+$", text.replace(" ", "")): return int(text.replace(" ", "")) == value.value      # unsized decimal
+        m = re.match(r"^(-?)\s*(\d+)'(s?)d(\d+)$", text.replace(" ", ""))
+        if not m: return False
+        w, mag = int(m.group(2)), int(m.group(4))
+        if mag >= (1 << w): return False
+        if m.group(3) and mag >= (1 << (w - 1)): mag -= 1 << w
+        return (-mag if m.group(1) else mag) == value.value
+    if isinstance(value, float):
+        try: return float(text) == value
+        except ValueError: return False
+    if isinstance(value, str): return text == '"' + value + '"'
+    return False
+
+def check_instances(name, insts, pre_items, vinsts, ns, vm, cdmap, raw_source):
+    """postcondition of _instance_generate_verilog for every Instance of the fragment (all items, not a sample)"""
+    out = []; t0 = time.time()
+    by_name = {}
+    for vi in vinsts: by_name.setdefault(vi["name"], []).append(vi)
+    env = {n_: (z3.BitVec(f"v_{n_}", d_["width"]), d_["width"], d_["signed"]) for n_, d_ in vm.nets.items()}
+    for inst in sorted(insts, key=lambda i_: i_.duid):
+        iname = ns.get_name(inst); bad = []; unk = []
+        cands = by_name.get(iname, [])
+        if len(cands) != 1:
+            out.append(res(f"ens.instance[{name}:{iname}]", "ensures", NOINPUT, 0, "executed", info=f"{len(cands)} instantiations named {iname} in the text (expected exactly one)")); continue
+        vi = cands[0]
+        if vi["of"] != inst.of: bad.append(f"module type {vi['of']} != {inst.of}")
+        if iname in vm.nets or iname in vm.mems or iname in KW: bad.append(f"instance name {iname} clashes with a net/memory/keyword")
+        P = [i_ for i_ in inst.items if isinstance(i_, Instance.Parameter)]
+        if [n_ for n_, _ in vi["params"]] != [p_.name for p_ in P]: bad.append(f"parameter names {[n_ for n_, _ in vi['params']][:6]} != items {[p_.name for p_ in P][:6]}")
+        else:
+            for (n_, txt), p_ in zip(vi["params"], P):
+                if not _param_ok(p_.value, txt): bad.append(f"parameter {n_}: text {txt!r} does not denote {p_.value!r}")
+        IO = [i_ for k_ in (Instance.Input, Instance.Output, Instance.InOut) for i_ in inst.items if isinstance(i_, k_)]
+        if sorted(n_ for n_, _ in vi["ports"]) != sorted(i_.name for i_ in IO) or len({n_ for n_, _ in vi["ports"]}) != len(vi["ports"]):
+            bad.append(f"port names in the text {sorted(n_ for n_, _ in vi['ports'])[:8]} != items {sorted(i_.name for i_ in IO)[:8]}")
+        else:
+            texts = dict(vi["ports"]); sem = Sem({}, {})
+            for io in IO:
+                txt = texts[io.name]; orig = pre_items.get(id(io), io.expr)
+                if isinstance(orig, (ClockSignal, ResetSignal)):
+                    cd_ = cdmap.get(orig.cd); want = None if cd_ is None else ns.get_name(cd_.clk if isinstance(orig, ClockSignal) else cd_.rst)
+                    if txt != want: bad.append(f"port {io.name}: {type(orig).__name__}({orig.cd}) connected to {txt!r}, expected {want!r}")
+                    continue
+                try: ast = vexpr.parse(txt)
+                except SyntaxError as e: unk.append(f"port {io.name}: text outside the grammar: {txt[:40]}"); continue
+                if not isinstance(io, Instance.Input) and not _is_lvalue(ast): bad.append(f"port {io.name}: output/inout connected to a non-lvalue {txt[:40]}"); continue
+                sigs = list_signals(io.expr); rdmap = {}; ok = True
+                for sg in sigs:
+                    n_ = ns.get_name(sg)
+                    if n_ not in env or env[n_][1] != sg.nbits or env[n_][2] != bool(sg.signed): bad.append(f"port {io.name}: signal {n_} not declared with width {sg.nbits}/signed {sg.signed}"); ok = False
+                    else: rdmap[sg] = env[n_][0]
+                if not ok: continue
+                try:
+                    wv, _ = vexpr.selfdet(ast, env); vval = vexpr.ev_self(ast, env)
+                    fval = low_bits(sem.eval(io.expr, lambda sg: rdmap[sg]), len(io.expr))
+                except (KeyError, NotImplementedError) as e: unk.append(f"port {io.name}: {type(e).__name__} {e}"); continue
+                if wv != len(io.expr): bad.append(f"port {io.name}: connected expression is {wv} bits wide in Verilog, {len(io.expr)} in FHDL"); continue
+                sv = z3.Solver(); sv.set("timeout", 20000); sv.add(vval != fval); rr = sv.check()
+                if rr == z3.sat: bad.append(f"port {io.name}: {txt[:50]} differs from the FHDL expression, e.g. {sv.model()}")
+                elif rr != z3.unsat: unk.append(f"port {io.name}: solver {rr}")
+        if inst.synthesis_directive is not None and f"/* synthesis {inst.synthesis_directive} */" not in raw_source: bad.append("synthesis directive missing")
+        out.append(res(f"ens.instance[{name}:{iname}]", "ensures", NOINPUT if bad else (UNKNOWN if unk else PROVED), time.time() - t0, "z3-5.1.0(api)", parameters=len(P), ports=len(IO),
+                       info="; ".join((bad + unk)[:4]), formula="module type, instance name, parameter list (names, order, denoted values) and port connections (names one-to-one; every connected expression equal for all values to the FHDL expression; outputs are lvalues; ClockSignal/ResetSignal -> that domain's clk/rst net) equal the Instance's items"))
+    extra = [vi["name"] for vi in vinsts if vi["name"] not in {ns.get_name(i_) for i_ in insts}]
+    if extra: out.append(res(f"ens.instance[{name}:no-extra]", "ensures", NOINPUT, 0, "executed", info=f"instantiations in the text without an Instance special: {extra[:4]}"))
+    return out
+def _is_lvalue(ast):
+    k = ast[0]
+    if k == "id": return True
+    if k == "sel": return _is_lvalue(ast[1])
+    if k == "cat": return all(_is_lvalue(x) for x in ast[1])
+    return False
+
 def tv_design(name, d, ios, regular_comb=True):
     t0 = time.time()
     f0 = d.get_fragment() if not isinstance(d, _FragmentT) else d; ios = set(ios)
@@ -149,10 +283,22 @@ def tv_design(name, d, ios, regular_comb=True):
         if isinstance(sp, Memory):
             for port in sp.ports: declared_mode[port] = port.mode; port_dom[port] = getattr(port.clock, "cd", None)      # convert() lowers ClockSignal in the (shared) port objects
     inputs = [s for s in ios if s not in clks]
-    fts = TS(copy_fragment(f0), inputs=inputs)
+    # Instance specials are black boxes: their outputs/inouts are free inputs of the surrounding logic (both sides); the instantiation
+    # text itself is checked against the Instance's items by check_instances
+    insts = [sp for sp in f0.specials if isinstance(sp, Instance)]
+    pre_items = {id(it): it.expr for inst in insts for it in inst.items if hasattr(it, "expr")}          # before convert() lowers ClockSignal/ResetSignal in place
+    f_ts = copy_fragment(f0); f_ts.specials -= set(insts); inst_driven = set()
+    for inst in insts:
+        for it in inst.items:
+            if isinstance(it, (Instance.Output, Instance.InOut)):
+                for sg in list_signals(it.expr):
+                    inst_driven.add(sg)
+                    if sg not in inputs and sg not in clks: inputs.append(sg)
+    fts = TS(f_ts, inputs=inputs)
     r = convert(copy_fragment(f0), ios=ios, name="top", regular_comb=regular_comb)      # REAL back end (regular_comb=False: the per-target printer used for simulation flows)
     try:
-        vm = parse_module(r.main_source); vts = VTS(vm, r.data_files)
+        src_noinst, vinsts = split_instances(r.main_source) if (insts or "Instance" in r.main_source) else (r.main_source, [])
+        vm = parse_module(src_noinst); vts = VTS(vm, r.data_files)
     except (VParseError, SyntaxError, AssertionError, KeyError, NotImplementedError) as e:
         return [res(f"tv[{name}]", "ensures", UNKNOWN, time.time() - t0, "", info=f"text outside the vlogsem grammar: {type(e).__name__}: {e}")]
     ns = r.ns
@@ -215,7 +361,7 @@ def tv_design(name, d, ios, regular_comb=True):
     driven = set(vts.comb_eq) | {n for d_ in vts.next.values() for n in d_}
     cs += [vts.var[n] == vts.init[n] for n, dd in vm.nets.items() if dd["kind"] == "reg" and n not in driven and n not in vm.ports and n in vts.init]
     eq_now = [fts.var[s] == vts.var[n] for s, n in link_state]
-    eq_now += [fts.rd(s) == vts.var[n] for s, n in link if s in fts.inputs and vm.ports.get(n) == "input"]
+    eq_now += [fts.rd(s) == vts.var[n] for s, n in link if s in fts.inputs and (vm.ports.get(n) == "input" or s in inst_driven)]
     eq_now += [fts.var[sig] == vts.memvar[mn][i] for sig, (mn, i) in memcells.items() if mn in vts.memvar]
     eq_now += [fts.rd(port.dat_r) == vts.var[vn] for _, port, _, vn in rewritten]      # relational link of a rewritten port: data register == mem[address register]
     # per clock domain: the FHDL next-state function of the domain against the always @(posedge <that domain's clock>) blocks
@@ -240,7 +386,7 @@ def tv_design(name, d, ios, regular_comb=True):
     if not fts.next:
         for s, n in link_state: goals[f"next.{n}"] = fts.var[s] == vts.var[n]
     for s, n in link:
-        if vm.ports.get(n) == "output" and s not in state_f: goals[f"out.{n}"] = fts.var[s] == vts.var[n]
+        if vm.ports.get(n) == "output" and s not in state_f and s not in inst_driven: goals[f"out.{n}"] = fts.var[s] == vts.var[n]
     out = []
     bad = []; unk = []
     solver = z3.Solver(); solver.add(*cs); solver.add(*eq_now)
@@ -335,6 +481,8 @@ def tv_design(name, d, ios, regular_comb=True):
     if goals_norst and rsts:
         out.append(res(f"finding.memory-under-reset[{name}]", "finding-witness", VIOLATED if rbad else PROVED, 0, "z3-5.1.0(api)", differing=rbad[:3],
                        what="while the reset input is high the simulator (MemoryToArray + insert_resets) restores memory words to their init values and resets memory-port registers; the emitted Verilog memory template has no reset"))
+    if insts or vinsts:
+        out += check_instances(name, insts, pre_items, vinsts, ns, vm, {cd_.name: cd_ for cd_ in fts.f.clock_domains}, r.main_source)
     if [x for x in rewritten if x[3] not in single_clock_rewrites]:
         out.append(res(f"finding.multiclock-memory-read-first[{name}]", "finding-witness", VIOLATED if rw_diff else PROVED, 0, "z3-5.1.0(api)", witness=rw_diff[:2],
                        what="memory with ports in different clock domains: the printer rewrites every port to Read-First (memory.py, 'FIXME'), the simulator keeps the declared Write-First mode (address register + transparent read): "
@@ -478,6 +626,31 @@ def _corpus():
         d = TwoWritePorts(mode_b); io = set()
         for p_ in (d.pa, d.pb): io |= {x for x in (p_.adr, p_.dat_r, p_.we, p_.dat_w, p_.re) if x is not None}
         return d, io
+    # Instance specials: a synthetic instance with every kind of item, and the instances the real clocking helpers emit
+    class Inst(Module):
+        def __init__(self):
+            self.a = Signal(4); self.b = Signal((3, True)); self.q = Signal(6); self.q2 = Signal(4); self.pad = Signal(2); self.r = Signal(4)
+            self.sync += self.r.eq(self.r + self.q[0:4])
+            self.specials += Instance("FOO", name="foo_i",
+                p_WIDTH=4, p_NEG=Constant(-3, (4, True)), p_MODE="fast,(x)", p_RATIO=1.5, p_RAW=Instance.PreformattedParam("8'hA5"),
+                i_clk=ClockSignal("sys"), i_rst=ResetSignal("sys"), i_a=self.a, i_lo=self.a[1:3], i_cat=Cat(self.b, self.a[0], self.r), i_k=Constant(5, 4), i_rep=Replicate(self.a[3], 3), i_one=1,
+                o_q=self.q, o_q2lo=self.q2[0:2], o_q2hi=self.q2[2:4], io_pad=self.pad, synthesis_directive="keep")
+            self.specials += Instance("FOO", i_a=self.b, o_q=Signal(name="unused"))
+    C.append(("Instance(all item kinds, two of one module)", lambda: (lambda d: (d, {d.a, d.b, d.q, d.q2, d.pad, d.r}))(Inst())))
+    def pll(kind):
+        from litex.soc.cores.clock import xilinx_s7, lattice_ecp5, lattice_ice40
+        class T(Module):
+            def __init__(self):
+                self.clk_in = Signal(); self.clock_domains.cd_a = ClockDomain("a"); self.clock_domains.cd_b = ClockDomain("b")
+                if kind == "S7PLL": p_ = xilinx_s7.S7PLL(speedgrade=-1); fin = 100e6
+                elif kind == "S7MMCM": p_ = xilinx_s7.S7MMCM(speedgrade=-1); fin = 100e6
+                elif kind == "ECP5PLL": p_ = lattice_ecp5.ECP5PLL(); fin = 100e6
+                else: p_ = lattice_ice40.iCE40PLL(); fin = 12e6
+                self.submodules.pll = p_; p_.register_clkin(self.clk_in, fin); p_.create_clkout(self.cd_a, 50e6 if kind != "iCE40PLL" else 24e6, with_reset=False)
+                if kind not in ("iCE40PLL",): p_.create_clkout(self.cd_b, 25e6, phase=90 if kind != "ECP5PLL" else 0, with_reset=False)
+                self.cnt = Signal(4); self.sync.a += self.cnt.eq(self.cnt + 1)
+        d = T(); return d, {d.clk_in, d.cnt}
+    for k_ in ("S7PLL", "S7MMCM", "ECP5PLL", "iCE40PLL"): C.append((f"clock.{k_}(instance)", (lambda k_=k_: pll(k_))))
     C.append(("two-write-port-memory(wf,wf)", lambda: twp(WRITE_FIRST))); C.append(("two-write-port-memory(wf,rf)", lambda: twp(READ_FIRST))); C.append(("two-write-port-memory(wf,nc)", lambda: twp(NO_CHANGE)))
     return C
 
@@ -486,7 +659,7 @@ def c_design(name, regular_comb=True):
         if n == name:
             d, ios = mkd()
             return dict(results=tv_design(n, d, ios, regular_comb), functions=["litex.gen.fhdl.verilog.convert", "litex.gen.fhdl.verilog._generate_node", "litex.gen.fhdl.verilog._generate_signals", "litex.gen.fhdl.verilog._generate_combinatorial_logic_synth",
-                                                                 "litex.gen.fhdl.verilog._generate_synchronous_logic", "litex.gen.fhdl.memory._memory_generate_verilog"], samples=[dict(program=n)])
+                                                                 "litex.gen.fhdl.verilog._generate_synchronous_logic", "litex.gen.fhdl.memory._memory_generate_verilog", "litex.gen.fhdl.instance._instance_generate_verilog"], samples=[dict(program=n)])
     raise KeyError(name)
 
 def c_case_sim():
